@@ -19,7 +19,7 @@ from ..world import CONTEXT_FREE, LINEAR, Session, arm_state, diff, pview
 
 ID = "C13"
 LEVEL = "exploration"
-QUICK_RUNS = 1000
+QUICK_RUNS = 4000
 RULE = ("Each run: a warm-start capable policy without neighbourhood policy, 2-7 arms, a history of fit / partial_fit / arm "
         "changes / refits / queries with warm_start calls whose feature dictionaries contain zero vectors and duplicates "
         "and whose quantiles include 0 and 1; every warm_start is delivered twice (F-DUP), sometimes with a restart in "
